@@ -6,6 +6,7 @@ package e1
 import (
 	"encoding/binary"
 	"fmt"
+	"github.com/polynetwork/poly/native/service/governance/neo3_state_manager"
 	"math"
 	"math/big"
 	"sort"
@@ -212,7 +213,7 @@ func (s *Sim) buildTx(st kernel.Step) *types.Transaction {
 	case "blacknode":
 		o := s.named(s.Actor(a(1)))
 		return chain.SignTx(w.NewTx(chain.NodeManager, node_manager.BLACK_NODE,
-			chain.Args(&node_manager.PeerListParam{PeerPubkeyList: []string{chain.PubHex(s.Peer(a(0)))}, Address: o.Address}), s.nextNonce()), s.signAs(st, o))
+			chain.Args(&node_manager.PeerListParam{PeerPubkeyList: s.BlackList(st), Address: o.Address}), s.nextNonce()), s.signAs(st, o))
 	case "whitenode":
 		o := s.named(s.Actor(a(1)))
 		return chain.SignTx(w.NewTx(chain.NodeManager, node_manager.WHITE_NODE,
@@ -255,6 +256,21 @@ func (s *Sim) buildTx(st kernel.Step) *types.Transaction {
 		p := &side_chain_manager.RegisterAssetParam{OperatorAddress: o.Address, ChainId: ChainID(a(0)),
 			AssetMap: map[uint64][]byte{d: {0xa5, byte(d), byte(a(3))}}, LockProxyMap: map[uint64][]byte{d: {0x1b, byte(d), byte(a(3))}}}
 		return chain.SignTx(w.NewTx(chain.SideChainManager, side_chain_manager.REGISTER_ASSET, chain.Args(p), s.nextNonce()), s.signAs(st, o))
+	case "regsv", "rmsv": // neo3 state validators: [key-set bitmask 1..7, owner user]
+		o := s.named(s.User(a(1)))
+		m := neo3_state_manager.REGISTER_STATE_VALIDATOR
+		if st.Op == "rmsv" {
+			m = neo3_state_manager.REMOVE_STATE_VALIDATOR
+		}
+		p := &neo3_state_manager.StateValidatorListParam{StateValidators: s.SVKeys(a(0)), Address: o.Address}
+		return chain.SignTx(w.NewTx(chain.Neo3State, m, chain.Args(p), s.nextNonce()), s.signAs(st, o))
+	case "approvesv", "approvermsv": // [request id, approver]
+		o := s.named(s.Actor(a(1)))
+		m := neo3_state_manager.APPROVE_REGISTER_STATE_VALIDATOR
+		if st.Op == "approvermsv" {
+			m = neo3_state_manager.APPROVE_REMOVE_STATE_VALIDATOR
+		}
+		return chain.SignTx(w.NewTx(chain.Neo3State, m, chain.Args(&neo3_state_manager.ApproveStateValidatorParam{ID: uint64(abs(a(0)) % 4), Address: o.Address}), s.nextNonce()), s.signAs(st, o))
 	case "quitchain":
 		o := s.named(s.User(a(1)))
 		return chain.SignTx(w.NewTx(chain.SideChainManager, side_chain_manager.QUIT_SIDE_CHAIN,
@@ -321,7 +337,7 @@ func (s *Sim) namedOwner(st kernel.Step) common.Address {
 	switch st.Op {
 	case "regchain", "updchain":
 		return s.User(st.Arg(2)).Address
-	case "quitchain", "regasset":
+	case "quitchain", "regasset", "regsv", "rmsv":
 		return s.User(st.Arg(1)).Address
 	case "import":
 		return s.Actor(st.Arg(3)).Address
@@ -441,4 +457,27 @@ func ImportArgs(msg, variant int64) []byte {
 	sk.WriteVarBytes([]byte{0xda, byte(msg), byte(variant)})
 	sk.WriteUint64(uint64(1000 + msg))
 	return sk.Bytes()
+}
+
+// SVKeys maps a bitmask (1..7) to a list of neo3 state-validator public keys (hex, 33 bytes).
+func (s *Sim) SVKeys(mask int64) []string {
+	mask = abs(mask)%7 + 1
+	var out []string
+	for i := 0; i < 3; i++ {
+		if mask&(1<<uint(i)) != 0 {
+			out = append(out, chain.PubHex(s.W.Account(fmt.Sprintf("sv%d", i))))
+		}
+	}
+	return out
+}
+
+// BlackList is the key list of a blacknode step: [peer, approver, second peer + 1 (0 = none)].
+func (s *Sim) BlackList(st kernel.Step) []string {
+	out := []string{chain.PubHex(s.Peer(st.Arg(0)))}
+	if k := st.Arg(2); k > 0 {
+		if p2 := chain.PubHex(s.Peer(k - 1)); p2 != out[0] {
+			out = append(out, p2)
+		}
+	}
+	return out
 }
